@@ -137,41 +137,41 @@ theorem ProgRel.runPure {α} {R : α → α → Prop} {p q : Prog α} (hp : Prog
 
 /-! ## The render monad -/
 
-def MRel {α} (R : α → α → Prop) (m m' : M α) : Prop :=
+def LineMRel {α} (R : α → α → Prop) (m m' : M α) : Prop :=
   ∀ s, ProgRel (fun r r' : α × RS => R r.1 r'.1 ∧ r.2 = r'.2) (m s) (m' s)
 
 theorem relM_bind {α β} {R : α → α → Prop} {R' : β → β → Prop} {m m' : M α} {f f' : α → M β}
-    (hm : MRel R m m') (hf : ∀ a b, R a b → MRel R' (f a) (f' b)) : MRel R' (m >>= f) (m' >>= f') := by
+    (hm : LineMRel R m m') (hf : ∀ a b, R a b → LineMRel R' (f a) (f' b)) : LineMRel R' (m >>= f) (m' >>= f') := by
   intro s
   refine ProgRel.bind (hm s) (fun ⟨a, s1⟩ ⟨b, s2⟩ ⟨hab, hs⟩ => ?_)
   simp only at hs
   subst hs
   exact hf a b hab s1
 
-theorem relM_refl {α} {R : α → α → Prop} (hR : ∀ a, R a a) (m : M α) : MRel R m m :=
+theorem relM_refl {α} {R : α → α → Prop} (hR : ∀ a, R a a) (m : M α) : LineMRel R m m :=
   fun s => ProgRel.refl (fun r => ⟨hR r.1, rfl⟩) (m s)
 
-theorem relM_pure {α} {R : α → α → Prop} (a b : α) (h : R a b) : MRel R (pure a : M α) (pure b) :=
+theorem relM_pure {α} {R : α → α → Prop} (a b : α) (h : R a b) : LineMRel R (pure a : M α) (pure b) :=
   fun _ => .ret _ _ ⟨h, rfl⟩
 
-theorem relM_fail {α} {R : α → α → Prop} (e e' : RawErr) (h : RawRel e e') : MRel R (M.fail e : M α) (M.fail e') :=
+theorem relM_fail {α} {R : α → α → Prop} (e e' : RawErr) (h : RawRel e e') : LineMRel R (M.fail e : M α) (M.fail e') :=
   fun _ => .fail _ _ h
 
 theorem relM_wrapFailAt {α} (path : Bytes) {loc loc' : Loc} (hl : LocRel loc loc') {R : α → α → Prop} {m m' : M α}
-    (hm : MRel R m m') : MRel R (wrapFailAt path loc m) (wrapFailAt path loc' m') := by
+    (hm : LineMRel R m m') : LineMRel R (wrapFailAt path loc m) (wrapFailAt path loc' m') := by
   intro s
   exact ProgRel.mapFail _ _ (hm s) (fun e e' he => wrapError_rel path hl he)
 
 theorem relM_wrapAt (path : Bytes) {loc loc' : Loc} (hl : LocRel loc loc') {m m' : M Status}
-    (hm : MRel StatusRel m m') : MRel StatusRel (wrapAt path loc m) (wrapAt path loc' m') := by
+    (hm : LineMRel StatusRel m m') : LineMRel StatusRel (wrapAt path loc m) (wrapAt path loc' m') := by
   intro s
   unfold wrapAt
   refine ProgRel.bind (ProgRel.mapFail _ _ (hm s) (fun e e' he => wrapError_rel path hl he)) (fun ⟨st, s1⟩ ⟨st', s2⟩ ⟨hst, hs⟩ => ?_)
   refine .ret _ _ ⟨?_, hs⟩
   cases st <;> cases st' <;> first | exact hst.elim | exact True.intro | exact wrapError_rel path hl (e := .located _) (e' := .located _) hst
 
-theorem relM_capture {α} {R : α → α → Prop} {m m' : M α} (hm : MRel R m m') :
-    MRel (fun r r' : α × Bytes => R r.1 r'.1 ∧ r.2 = r'.2) (captureM m) (captureM m') := by
+theorem relM_capture {α} {R : α → α → Prop} {m m' : M α} (hm : LineMRel R m m') :
+    LineMRel (fun r r' : α × Bytes => R r.1 r'.1 ∧ r.2 = r'.2) (captureM m) (captureM m') := by
   intro s
   unfold captureM
   simp only
@@ -206,7 +206,7 @@ theorem relM_capture {α} {R : α → α → Prop} {m m' : M α} (hm : MRel R m 
 /-! ## Loops -/
 
 theorem relM_intModifier (P : Prims) (e : Option Expr) {loc loc' : Loc} (hl : LocRel loc loc') :
-    MRel (fun a b : Option Int => a = b) (intModifier P e loc) (intModifier P e loc') := by
+    LineMRel (fun a b : Option Int => a = b) (intModifier P e loc) (intModifier P e loc') := by
   unfold intModifier
   cases e with
   | none => exact relM_pure _ _ rfl
@@ -220,7 +220,7 @@ theorem relM_intModifier (P : Prims) (e : Option Expr) {loc loc' : Loc} (hl : Lo
     · exact relM_fail _ _ ⟨hl.1, rfl, rfl, hl.2⟩
 
 theorem relM_tablerowCols (P : Prims) (tr : Bool) (cols : Option Expr) {loc loc' : Loc} (hl : LocRel loc loc') :
-    MRel (fun a b : Option Nat => a = b) (tablerowCols P tr cols loc) (tablerowCols P tr cols loc') := by
+    LineMRel (fun a b : Option Nat => a = b) (tablerowCols P tr cols loc) (tablerowCols P tr cols loc') := by
   unfold tablerowCols
   split
   · refine relM_bind (relM_intModifier P cols hl) (fun cv cv' h => ?_)
@@ -228,8 +228,8 @@ theorem relM_tablerowCols (P : Prims) (tr : Bool) (cols : Option Expr) {loc loc'
     exact relM_refl (fun _ => rfl) _
   · exact relM_pure _ _ rfl
 
-theorem relM_iterate (var : Bytes) (cols : Option Nat) {body body' : M Status} (hb : MRel StatusRel body body') (n : Nat) :
-    ∀ xs i cyc, MRel StatusRel (iterateM var cols body n xs i cyc) (iterateM var cols body' n xs i cyc) := by
+theorem relM_iterate (var : Bytes) (cols : Option Nat) {body body' : M Status} (hb : LineMRel StatusRel body body') (n : Nat) :
+    ∀ xs i cyc, LineMRel StatusRel (iterateM var cols body n xs i cyc) (iterateM var cols body' n xs i cyc) := by
   intro xs
   induction xs with
   | nil => intro i cyc; exact relM_pure _ _ True.intro
@@ -247,12 +247,12 @@ theorem relM_iterate (var : Bytes) (cols : Option Nat) {body body' : M Status} (
 
 theorem relM_loopRun (P : Prims) (path : Bytes) {loc loc' : Loc} (hl : LocRel loc loc')
     (tr : Bool) (var : Bytes) (e : Expr) (mods : LoopMods)
-    {bodyM bodyM' : M Status} (hb : MRel StatusRel bodyM bodyM') (tooMany : Bool) (elseM elseM' : Option (M Status))
+    {bodyM bodyM' : M Status} (hb : LineMRel StatusRel bodyM bodyM') (tooMany : Bool) (elseM elseM' : Option (M Status))
     (he : match elseM, elseM' with
       | none, none => True
-      | some m, some m' => MRel StatusRel m m'
+      | some m, some m' => LineMRel StatusRel m m'
       | _, _ => False) :
-    MRel StatusRel (loopRun P path loc tr var e mods bodyM tooMany elseM) (loopRun P path loc' tr var e mods bodyM' tooMany elseM') := by
+    LineMRel StatusRel (loopRun P path loc tr var e mods bodyM tooMany elseM) (loopRun P path loc' tr var e mods bodyM' tooMany elseM') := by
   unfold loopRun
   refine relM_wrapAt path hl ?_
   refine relM_bind (relM_refl (R := fun a b : Env => a = b) (fun _ => rfl) _) (fun env env' h1 => ?_)
@@ -268,7 +268,7 @@ theorem relM_loopRun (P : Prims) (path : Bytes) {loc loc' : Loc} (hl : LocRel lo
   split
   · exact relM_refl StatusRel.refl _
   · unfold loopDispatch
-    have hiter : ∀ its, MRel StatusRel (loopIterate P loc tr var mods.cols bodyM its) (loopIterate P loc' tr var mods.cols bodyM' its) := by
+    have hiter : ∀ its, LineMRel StatusRel (loopIterate P loc tr var mods.cols bodyM its) (loopIterate P loc' tr var mods.cols bodyM' its) := by
       intro its
       unfold loopIterate
       refine relM_bind (relM_tablerowCols P tr _ hl) (fun cols cols' h6 => ?_)
@@ -291,7 +291,7 @@ theorem locRel_lines {g g' : Nat → Nat} (hz : ∀ x, g x = 0 ↔ g' x = 0) (l 
   ⟨rfl, hz l⟩
 
 theorem relM_evalCond (P : Prims) (path : Bytes) {g g' : Nat → Nat} (hz : ∀ x, g x = 0 ↔ g' x = 0) (t : CondT) :
-    MRel (fun a b : Bool => a = b) (evalCond P path (t.rel g)) (evalCond P path (t.rel g')) := by
+    LineMRel (fun a b : Bool => a = b) (evalCond P path (t.rel g)) (evalCond P path (t.rel g')) := by
   unfold evalCond
   refine relM_bind (relM_refl (R := fun a b : Env => a = b) (fun _ => rfl) _) (fun env env' h => ?_)
   subst h
@@ -301,8 +301,8 @@ theorem relM_evalCond (P : Prims) (path : Bytes) {g g' : Nat → Nat} (hz : ∀ 
   | notExpr l e => exact relM_wrapFailAt path (locRel_lines hz l) (relM_refl (fun _ => rfl) _)
 
 mutual
-theorem rel_renderNode (c : RCtx) {g g' : Nat → Nat} (hz : ∀ x, g x = 0 ↔ g' x = 0) :
-    ∀ n : Node, n.noIncl = true → MRel StatusRel (renderNode c (n.rel g)) (renderNode c (n.rel g'))
+theorem lineRel_renderNode (c : RCtx) {g g' : Nat → Nat} (hz : ∀ x, g x = 0 ↔ g' x = 0) :
+    ∀ n : Node, n.noIncl = true → LineMRel StatusRel (renderNode c (n.rel g)) (renderNode c (n.rel g'))
   | .text line src, _ => by
     simp only [Node.rel, renderNode]
     exact relM_wrapFailAt _ (locRel_lines hz line) (relM_refl StatusRel.refl _)
@@ -320,7 +320,7 @@ theorem rel_renderNode (c : RCtx) {g g' : Nat → Nat} (hz : ∀ x, g x = 0 ↔ 
     exact relM_wrapFailAt _ (locRel_lines hz line) (relM_refl StatusRel.refl _)
   | .capture line x body, hn => by
     simp only [Node.rel, renderNode]
-    have hb := rel_renderList c hz body (by simpa [Node.noIncl] using hn)
+    have hb := lineRel_renderList c hz body (by simpa [Node.noIncl] using hn)
     refine relM_wrapAt _ (locRel_lines hz line) (relM_bind (relM_capture hb) (fun r r' hr => ?_))
     obtain ⟨st, out⟩ := r
     obtain ⟨st', out'⟩ := r'
@@ -330,7 +330,7 @@ theorem rel_renderNode (c : RCtx) {g g' : Nat → Nat} (hz : ∀ x, g x = 0 ↔ 
     cases st <;> cases st' <;> first | exact hst.elim | exact relM_refl StatusRel.refl _ | exact relM_pure _ _ hst
   | .ifB line branches, hn => by
     simp only [Node.rel, renderNode]
-    exact relM_wrapAt _ (locRel_lines hz line) (rel_renderBranches c hz branches (by simpa [Node.noIncl] using hn))
+    exact relM_wrapAt _ (locRel_lines hz line) (lineRel_renderBranches c hz branches (by simpa [Node.noIncl] using hn))
   | .caseB line subject cases, hn => by
     simp only [Node.rel, renderNode]
     refine relM_wrapAt _ (locRel_lines hz line) ?_
@@ -338,10 +338,10 @@ theorem rel_renderNode (c : RCtx) {g g' : Nat → Nat} (hz : ∀ x, g x = 0 ↔ 
     subst h
     refine relM_bind (relM_refl (R := fun a b : GoVal => a = b) (fun _ => rfl) _) (fun sel sel' h => ?_)
     subst h
-    exact rel_renderCases c hz sel cases (by simpa [Node.noIncl] using hn)
+    exact lineRel_renderCases c hz sel cases (by simpa [Node.noIncl] using hn)
   | .loop line tablerow var e mods body clauses, hn => by
     have hn' : noInclList body = true ∧ noInclClauses clauses = true := by simpa [Node.noIncl] using hn
-    have hbody := rel_renderBlockBody c hz body hn'.1
+    have hbody := lineRel_renderBlockBody c hz body hn'.1
     cases clauses with
     | nil =>
       simp only [Node.rel, relNClauses, renderNode]
@@ -352,7 +352,7 @@ theorem rel_renderNode (c : RCtx) {g g' : Nat → Nat} (hz : ∀ x, g x = 0 ↔ 
         have hne : noInclList els = true := by
           have := hn'.2; simp only [noInclClauses, Bool.and_eq_true] at this; exact this.1
         simp only [Node.rel, relNClauses, renderNode]
-        exact relM_loopRun _ _ (locRel_lines hz line) _ _ _ _ hbody _ (some _) (some _) (rel_renderBlockBody c hz els hne)
+        exact relM_loopRun _ _ (locRel_lines hz line) _ _ _ _ hbody _ (some _) (some _) (lineRel_renderBlockBody c hz els hne)
       | cons e2 r2 =>
         simp only [Node.rel, relNClauses, renderNode]
         exact relM_loopRun _ _ (locRel_lines hz line) _ _ _ _ hbody _ none none True.intro
@@ -373,22 +373,22 @@ theorem rel_renderNode (c : RCtx) {g g' : Nat → Nat} (hz : ∀ x, g x = 0 ↔ 
     exact relM_pure _ _ (wrapError_rel _ (locRel_lines hz line) (e := .located _) (e' := .located _)
       (wrapError_rel _ (locRel_lines hz line) (e := .plain _) (e' := .plain _) rfl))
   | .incl line args, hn => by simp [Node.noIncl] at hn
-theorem rel_renderList (c : RCtx) {g g' : Nat → Nat} (hz : ∀ x, g x = 0 ↔ g' x = 0) :
-    ∀ ns : List Node, noInclList ns = true → MRel StatusRel (renderList c (relNodes g ns)) (renderList c (relNodes g' ns))
+theorem lineRel_renderList (c : RCtx) {g g' : Nat → Nat} (hz : ∀ x, g x = 0 ↔ g' x = 0) :
+    ∀ ns : List Node, noInclList ns = true → LineMRel StatusRel (renderList c (relNodes g ns)) (renderList c (relNodes g' ns))
   | [], _ => by simp only [relNodes]; exact relM_refl StatusRel.refl _
   | n :: ns, hn => by
     have hn' : n.noIncl = true ∧ noInclList ns = true := by simpa [noInclList] using hn
     simp only [relNodes, renderList]
-    refine relM_bind (rel_renderNode c hz n hn'.1) (fun st st' hst => ?_)
-    cases st <;> cases st' <;> first | exact False.elim hst | exact rel_renderList c hz ns hn'.2 | exact relM_pure _ _ hst
-theorem rel_renderBlockBody (c : RCtx) {g g' : Nat → Nat} (hz : ∀ x, g x = 0 ↔ g' x = 0) (body : List Node)
-    (hn : noInclList body = true) : MRel StatusRel (renderBlockBody c (relNodes g body)) (renderBlockBody c (relNodes g' body)) := by
+    refine relM_bind (lineRel_renderNode c hz n hn'.1) (fun st st' hst => ?_)
+    cases st <;> cases st' <;> first | exact False.elim hst | exact lineRel_renderList c hz ns hn'.2 | exact relM_pure _ _ hst
+theorem lineRel_renderBlockBody (c : RCtx) {g g' : Nat → Nat} (hz : ∀ x, g x = 0 ↔ g' x = 0) (body : List Node)
+    (hn : noInclList body = true) : LineMRel StatusRel (renderBlockBody c (relNodes g body)) (renderBlockBody c (relNodes g' body)) := by
   unfold renderBlockBody
-  refine relM_bind (rel_renderList c hz body hn) (fun st st' hst => ?_)
+  refine relM_bind (lineRel_renderList c hz body hn) (fun st st' hst => ?_)
   cases st <;> cases st' <;> first | exact False.elim hst | exact relM_refl StatusRel.refl _ | exact relM_pure _ _ hst
-theorem rel_renderBranches (c : RCtx) {g g' : Nat → Nat} (hz : ∀ x, g x = 0 ↔ g' x = 0) :
+theorem lineRel_renderBranches (c : RCtx) {g g' : Nat → Nat} (hz : ∀ x, g x = 0 ↔ g' x = 0) :
     ∀ bs : List (CondT × List Node), noInclBranches bs = true →
-      MRel StatusRel (renderBranches c (relBranches g bs)) (renderBranches c (relBranches g' bs))
+      LineMRel StatusRel (renderBranches c (relBranches g bs)) (renderBranches c (relBranches g' bs))
   | [], _ => by simp only [relBranches]; exact relM_refl StatusRel.refl _
   | (t, body) :: rest, hn => by
     have hn' : noInclList body = true ∧ noInclBranches rest = true := by simpa [noInclBranches] using hn
@@ -396,16 +396,16 @@ theorem rel_renderBranches (c : RCtx) {g g' : Nat → Nat} (hz : ∀ x, g x = 0 
     refine relM_bind (relM_evalCond c.P c.cfg.path hz t) (fun b b' hb => ?_)
     subst hb
     split
-    · exact rel_renderBlockBody c hz body hn'.1
-    · exact rel_renderBranches c hz rest hn'.2
-theorem rel_renderCases (c : RCtx) {g g' : Nat → Nat} (hz : ∀ x, g x = 0 ↔ g' x = 0) (sel : GoVal) :
+    · exact lineRel_renderBlockBody c hz body hn'.1
+    · exact lineRel_renderBranches c hz rest hn'.2
+theorem lineRel_renderCases (c : RCtx) {g g' : Nat → Nat} (hz : ∀ x, g x = 0 ↔ g' x = 0) (sel : GoVal) :
     ∀ cs : List (Option (Nat × List Expr) × List Node), noInclCases cs = true →
-      MRel StatusRel (renderCases c sel (relCases g cs)) (renderCases c sel (relCases g' cs))
+      LineMRel StatusRel (renderCases c sel (relCases g cs)) (renderCases c sel (relCases g' cs))
   | [], _ => by simp only [relCases]; exact relM_refl StatusRel.refl _
   | (none, body) :: rest, hn => by
     have hn' : noInclList body = true ∧ noInclCases rest = true := by simpa [noInclCases] using hn
     simp only [relCases, renderCases]
-    exact rel_renderBlockBody c hz body hn'.1
+    exact lineRel_renderBlockBody c hz body hn'.1
   | (some (line, es), body) :: rest, hn => by
     have hn' : noInclList body = true ∧ noInclCases rest = true := by simpa [noInclCases] using hn
     simp only [relCases, renderCases]
@@ -413,8 +413,8 @@ theorem rel_renderCases (c : RCtx) {g g' : Nat → Nat} (hz : ∀ x, g x = 0 ↔
       (fun hit hit' h => ?_)
     subst h
     split
-    · exact rel_renderBlockBody c hz body hn'.1
-    · exact rel_renderCases c hz sel rest hn'.2
+    · exact lineRel_renderBlockBody c hz body hn'.1
+    · exact lineRel_renderCases c hz sel rest hn'.2
 end
 
 /-! ## Results of `run` that agree up to the line of the error -/
